@@ -71,6 +71,8 @@ theorem hasGroup_lprim {c c' : Cell} {lab : Lab} (hc : HasGroup c) (hp : LPrim l
     exact hasGroup_of (c := c) (updApp_group_back (app?_mem ha) hg) rfl hc
   | ghost ha =>
     exact hasGroup_of (c := c) (updApp_group_back (app?_mem ha) rfl) rfl hc
+  | setRenew ha =>
+    exact hasGroup_of (c := c) (updApp_group_back (app?_mem ha) rfl) rfl hc
   | dropDangling ha _ _ =>
     exact hasGroup_of (c := c) (updApp_group_back (app?_mem ha) rfl) rfl hc
   | forgetIdentity ha _ _ _ _ =>
